@@ -89,9 +89,9 @@ PROPS = {
         'Trusted: the snapshot-semantics model, the ledger, the watchdog for real hangs. Policies: SingleThreading, MultipleThreading, real SpinLock, and SimMutex/SpinLock inside one simulated task.',
         'Each evaluation is one seeded program: a history of 8-40 top-level operations whose added callbacks carry scripts (1-3 operations each, nested scripts allowed, global fuel 6-30) on CallbackList or EventDispatcher under one of 9 policy variants. '
         'Non-trivial = at least one added callback carries a script; distinct = distinct plan hashes.'),
-    'C12': seq_prop('seq_filter', [st('c12', 'seq_filter', 'c12', 1000000, 8000000), st('c12-heter-conversion', 'seq_filter', 'c12k', 3000, 30000)],
+    'C12': seq_prop('seq_filter', [st('c12', 'seq_filter', 'c12', 1000000, 8000000), st('c12-heter-conversion', 'seq_filter', 'c12k', 3000, 30000), st('c12-plain-mixin', 'seq_filter', 'c12p', 3000, 30000)],
         'seeded filter / listener / dispatch histories (direct and queued) in lockstep with a dispatcher-with-filters model; harness mixins before and after MixinFilter record their position; canContinueInvoking, conditionalFunctor and argumentAdapter variants',
-        'Seeded search over histories of appendFilter / removeFilter (also from inside a filter), listener changes and dispatches - direct, and performed by EventQueue::process - with by-value and by-reference prototype parameters, arguments as lvalues and temporaries. Every filter call is checked when it happens: it must be the next filter in order of addition that is still attached, see the arguments as modified by the earlier filters, and no filter or listener may run after a filter returned false; listeners must see the modified values. Variants: MixinFilter alone, between two recording mixins, on EventQueue, MixinHeterFilter on HeterEventDispatcher (exact argument types; a second, small stage dispatches int arguments to prototypes <void(long, Payload), void(int, Payload)> and reproduces the recorded, unrepaired defect listed in known_findings.txt: the filters run belong to another prototype than the listeners that run); canContinueInvoking reading a flag in a by-reference argument while a second, tracked argument is taken by value by the prototype, the listeners and the policy itself (CallbackList and EventDispatcher; a moved-from value is visible to the next listener); conditionalFunctor and argumentAdapter (value and shared_ptr flavours).',
+        'Seeded search over histories of appendFilter / removeFilter (also from inside a filter), listener changes and dispatches - direct, and performed by EventQueue::process - with by-value and by-reference prototype parameters, arguments as lvalues and temporaries. Every filter call is checked when it happens: it must be the next filter in order of addition that is still attached, see the arguments as modified by the earlier filters, and no filter or listener may run after a filter returned false; listeners must see the modified values. Variants: MixinFilter alone, between two recording mixins, on EventQueue, MixinHeterFilter on HeterEventDispatcher (exact argument types; a second, small stage dispatches int arguments to prototypes <void(long, Payload), void(int, Payload)> and reproduces the recorded, unrepaired defect listed in known_findings.txt: the filters run belong to another prototype than the listeners that run; a third small stage lists a mixin without an interceptor before MixinFilter and reproduces the second recorded defect: the filters run twice); canContinueInvoking reading a flag in a by-reference argument while a second, tracked argument is taken by value by the prototype, the listeners and the policy itself (CallbackList and EventDispatcher; a moved-from value is visible to the next listener); conditionalFunctor and argumentAdapter (value and shared_ptr flavours).',
         'Trusted: the filter model. With lvalue arguments a heterogeneous dispatcher forwards references to the caller\'s own objects, so that variant dispatches temporaries only.',
         'Each evaluation is one seeded history of 8-38 operations on one of six configurations. Non-trivial = contains a dispatch; distinct = distinct plan hashes.'),
     'C14': seq_prop('seq_heter', [st('c14-g++', 'seq_heter', 'c14', 300000, 6000000), st('c14-clang++', 'seq_heter_clang', 'c14', 300000, 6000000)],
